@@ -609,7 +609,9 @@ func c09Scenario(c c09Case, v *vlib.Verdict) {
 			v.Label("stale-duplicates-of-handshake-answers-delivered")
 		}
 	}
-	faithful := c.AB.LossPct == 0 && c.BA.LossPct == 0 && len(c.AB.Outages) == 0 && len(c.BA.Outages) == 0 && c.AB.BurstLen == 0 && c.BA.BurstLen == 0
+	// (a datagram that arrives truncated is a lost datagram to a correct receiver: the frame is shorter than its own
+	// length field says, or than a header, and is dropped; the network log lists whole deliveries only)
+	faithful := c.AB.LossPct == 0 && c.BA.LossPct == 0 && len(c.AB.Outages) == 0 && len(c.BA.Outages) == 0 && c.AB.BurstLen == 0 && c.BA.BurstLen == 0 && c.AB.TruncPm == 0 && c.BA.TruncPm == 0
 	// every reliable incarnation that was opened and whose open request reached the other side (network log) must
 	// have been offered by Accept there - whatever the loss pattern
 	r.mu.Lock()
@@ -662,6 +664,9 @@ func c09Scenario(c c09Case, v *vlib.Verdict) {
 	if faithful {
 		v.Label("loss-free")
 	}
+	if r.p.Net.Stats.Truncated[0]+r.p.Net.Stats.Truncated[1] > 0 {
+		v.Label("datagrams-delivered-truncated")
+	}
 	r.p.vStopBoth(30 * time.Second)
 	time.Sleep(3 * time.Minute)
 }
@@ -693,6 +698,16 @@ func c09GenCase(t *rapid.T) c09Case {
 		return p
 	}
 	c.AB, c.BA = mk("ab"), mk("ba")
+	// fault (one case in three, both regimes): now and then a datagram arrives with its last 1..4 bytes missing - rare
+	// per packet (0.5-6 %, per direction). To a correct receiver that is a lost datagram; nothing foreign or altered may
+	// be delivered because of it, and every clause stays as it is.
+	if rapid.IntRange(0, 2).Draw(t, "truncated") == 0 {
+		for _, p := range []*memconn.Params{&c.AB, &c.BA} {
+			if pm := rapid.SampledFrom([]int{0, 5, 20, 60}).Draw(t, "truncpm"); pm > 0 {
+				p.TruncPm, p.TruncMax = pm, 4
+			}
+		}
+	}
 	sizes := []int{c09Hdr, c09Hdr + 1, 100, 1000, int(MaxFrameDataLength) - 1, int(MaxFrameDataLength), int(MaxFrameDataLength) + 1, 65535, 65536, 65636}
 	c.Workers = rapid.SliceOfN(rapid.Custom(func(t *rapid.T) c09Worker {
 		w := c09Worker{Side: rapid.IntRange(0, 1).Draw(t, "side"), Rel: rapid.Bool().Draw(t, "rel")}
